@@ -718,24 +718,34 @@ class Esic:
             resid = e.Ecoul + e.Exc + e.Esic
             return bool(abs(resid) > 1e-6), dict(check="H atom, unrestricted, SCF(sic=True): Ecoul + Exc + Esic (must vanish for one electron)",
                                                 Ecoul=e.Ecoul, Exc=e.Exc, Esic=e.Esic, residual=resid)
-        at = Atoms("LiH", [[0, 0, 0], [0, 0, 3]], ecut=4, a=8, unrestricted=True)
-        scf = SCF(at, xc="pbe", opt={"pccg": 6}, etol=1e-9)
-        scf.run()
-        ns = get_n_single(at, scf.Y)
-        got = get_Esic(scf, scf.Y)
-        want = 0.0
         from eminus.gga import get_grad_field
 
-        for i in range(at.occ.Nstate):
-            for s in range(at.occ.Nspin):
-                wgt = float(np.sum(at.occ.f[:, s, i] * at.kpts.wk))
-                if wgt > 0:
-                    ni = np.zeros((2, at.Ns))
-                    ni[0] = ns[s, :, i] / wgt
-                    dni = np.zeros((2, at.Ns, 3))
-                    dni[0] = get_grad_field(at, ni)[0]
-                    want += (get_Ecoul(at, ni[0]) + get_Exc(scf, ni[0], n_spin=ni, dn_spin=dni, Nspin=2)) * wgt
-        return bool(abs(got - want) > 1e-9), dict(check="LiH unrestricted PBE: Esic vs sum_i w_i (E_H[n_i] + E_xc[n_i, 0])", Esic=got, expected=want)
+        rows = []
+        # fillings 1 (unrestricted), 2 (restricted closed shell), 1 in a RESTRICTED odd-electron system and fractional fillings
+        cases = (("LiH unrestricted", dict(atom="LiH", pos=[[0, 0, 0], [0, 0, 3]], unrestricted=True), None),
+                 ("H restricted (f = 1)", dict(atom="H", pos=[[0, 0, 0]], unrestricted=False), None),
+                 ("LiH restricted, fillings [2, 1.5, 0.5]", dict(atom="LiH", pos=[[0, 0, 0], [0, 0, 3]], unrestricted=False), [[2, 1.5, 0.5]]))
+        for name, kw, fill in cases:
+            at = Atoms(kw["atom"], kw["pos"], ecut=4, a=8, unrestricted=kw["unrestricted"])
+            if fill is not None:
+                at.f = fill
+            scf = SCF(at, xc="pbe", opt={"pccg": 4}, etol=1e-9)
+            scf.run()
+            at = scf.atoms
+            ns = np.asarray(get_n_single(at, scf.Y))
+            got = get_Esic(scf, scf.Y)
+            want = 0.0
+            for i in range(at.occ.Nstate):
+                for s_ in range(at.occ.Nspin):
+                    wgt = float(np.sum(np.asarray(at.occ.f)[:, s_, i] * np.asarray(at.kpts.wk)))
+                    if wgt > 0:
+                        ni = np.zeros((2, at.Ns))
+                        ni[0] = ns[s_, :, i] / wgt
+                        dni = np.zeros((2, at.Ns, 3))
+                        dni[0] = np.asarray(get_grad_field(at, ni))[0]
+                        want += (get_Ecoul(at, ni[0]) + get_Exc(scf, ni[0], n_spin=ni, dn_spin=dni, Nspin=2)) * wgt
+            rows.append(dict(case=name, Esic=float(got), expected=float(want), bad=bool(abs(got - want) > 1e-9 * max(1.0, abs(want)))))
+        return any(r["bad"] for r in rows), dict(check="PBE: Esic vs sum_i w_i (E_H[n_i / w_i] + E_xc[n_i / w_i, 0])", cases=rows)
 
 
 register(Obligation(name="C16.get_Esic.formula", prop=PROP, engine="Z", functions=["eminus.energies:get_Esic"], run=Esic("formula"), assumes=("engineZ", "z3", "callee-contract"),
